@@ -46,6 +46,8 @@ type Machine struct {
 	bigStrings []string
 	mu        sync.Mutex
 	pendingBelow []pushRecTag
+	live      map[string]map[string]bool // field -> mode table -> may be read before written (live.go); nil: no normalisation
+	liveModes []string
 }
 
 type ConsItem struct {
@@ -70,6 +72,9 @@ type Outcome struct {
 	Why        string
 	Thrown     bool
 	Assigned   map[string]bool
+	ReadFirst  map[string]bool // tracked fields read before being written in this arm
+	Decisions  []string
+	Peek       *[256]bool // the arm looked at the next byte without consuming it: the next dispatched byte is in this set
 }
 
 // findWork locates the dispatch loop: a method of T whose body has
@@ -735,7 +740,9 @@ func (m *Machine) Starts(root string, config map[string]Val) ([]*State, []string
 	}
 	st.garbage = map[string]bool{}
 	for f := range in.scratch {
-		st.garbage[f] = true
+		if !in.noScratch {
+			st.garbage[f] = true
+		}
 	}
 	// exported tracked fields are configuration, not carried state
 	stt := m.recvType.Underlying().(*types.Struct)
@@ -828,20 +835,31 @@ func (m *Machine) enterWorkWith(in *Interp, s *State) []*State {
 func (m *Machine) Refill(in *Interp, s *State) []*State { return m.enterWorkWith(in, s) }
 
 // Step runs the loop body on byte b.
-func (m *Machine) Step(in *Interp, s0 *State, b int) []Outcome {
+func (m *Machine) Step(in *Interp, s0 *State, b int) []Outcome { return m.StepOpt(in, s0, b, false) }
+
+// StepOpt: with oneByte the dispatched byte is the last one of its buffer
+// (canonical one-byte chunking: no fast path can look ahead).
+func (m *Machine) StepOpt(in *Interp, s0 *State, b int, oneByte bool) []Outcome {
 	s := s0.clone()
 	s.cur = b
 	s.remLo, s.remHi = 0, -1
+	if oneByte {
+		s.remHi = 0
+	}
 	s.known = nil
 	s.scan = nil
 	s.events, s.notes, s.popped, s.pushed, s.readStale = nil, nil, nil, nil, nil
 	s.errArg = nil
 	s.assigned = nil
+	s.readFirst = nil
+	s.decisions = nil
 	s.pendingRestore = 0
 	s.locals[m.offVar] = vOff(0, false)
 	var outs []Outcome
 	for _, e := range in.execList(m.loop.Body.List, s) {
-		outs = append(outs, m.outcome(e, false))
+		if o := m.outcome(e, false); o.Kind != "infeasible" {
+			outs = append(outs, o)
+		}
 	}
 	return outs
 }
@@ -852,6 +870,9 @@ func (m *Machine) EOF(in *Interp, s0 *State) []Outcome {
 	s.cur = -1
 	s.events, s.notes, s.popped, s.pushed, s.readStale = nil, nil, nil, nil, nil
 	s.errArg = nil
+	s.decisions = nil
+	s.assigned = nil
+	s.readFirst = nil
 	s.locals[m.offVar] = Val{K: kLenBuf}
 	if m.lastVar != nil {
 		s.locals[m.lastVar] = vConstBool(true)
@@ -865,7 +886,7 @@ func (m *Machine) EOF(in *Interp, s0 *State) []Outcome {
 }
 
 func (m *Machine) outcome(e Exit, eof bool) Outcome {
-	o := Outcome{Events: e.st.events, Pops: e.st.popped, Pushes: e.st.pushed, Notes: e.st.notes, ReadStale: e.st.readStale, Assigned: e.st.assigned}
+	o := Outcome{ReadFirst: e.st.readFirst, Decisions: e.st.decisions, Events: e.st.events, Pops: e.st.popped, Pushes: e.st.pushed, Notes: e.st.notes, ReadStale: e.st.readStale, Assigned: e.st.assigned}
 	switch e.ctl {
 	case cPanic:
 		if strings.HasPrefix(e.why, "explicit panic") {
@@ -1040,6 +1061,55 @@ func (m *Machine) outcome(e Exit, eof bool) Outcome {
 		o.Kind = "undecided"
 		o.Why = "cursor value " + off.String() + " at the end of the arm"
 	}
+	// a byte the arm looked at but left for the next dispatch
+	if o.Kind == "next" && off.K == kOff && !o.Redispatch {
+		peekByte := -1
+		switch {
+		case !off.Flag && sc == nil:
+			if kb, ok := e.st.known[off.A+1]; ok && off.A >= 0 {
+				peekByte = kb
+			}
+		case sc != nil && sc.Outcome == 'B':
+			if sc.Kpos && off.Flag && off.A-(sc.Base-1) == 0 {
+				peekByte = sc.Break
+			}
+			if !sc.Kpos && sc.Base >= 1 && off.A == sc.Base-1 {
+				peekByte = sc.Break
+			}
+		}
+		if peekByte >= 0 {
+			var set [256]bool
+			for _, mb := range m.in.cls.members(peekByte) {
+				set[mb] = true
+			}
+			o.Peek = &set
+		}
+	}
+	// the buffer is known to end after remHi more bytes: repeated look-ahead
+	// items beyond it are empty (one-byte chunking, guarded fast paths)
+	if o.Kind == "next" && e.st.remHi >= 0 {
+		allowed := e.st.remHi
+		var kept []ConsItem
+		for _, it := range o.Items {
+			switch it.Rep {
+			case '1':
+				if allowed > 0 {
+					allowed--
+				}
+				kept = append(kept, it)
+			case '*':
+				if allowed > 0 {
+					kept = append(kept, it)
+				}
+			case '+':
+				if allowed == 0 {
+					o.Kind = "infeasible"
+				}
+				kept = append(kept, it)
+			}
+		}
+		o.Items = kept
+	}
 	// normalise the state kept for the next byte
 	n := e.st
 	keep := map[any]Val{}
@@ -1072,7 +1142,10 @@ func (m *Machine) outcome(e Exit, eof bool) Outcome {
 	n.events, n.notes, n.popped, n.pushed, n.readStale = nil, nil, nil, nil, nil
 	n.errArg = nil
 	n.assigned = nil
+	n.readFirst = nil
+	n.decisions = nil
 	n.pendingRestore = 0
+	m.normaliseDead(n)
 	o.Next = n
 	return o
 }
@@ -1106,4 +1179,98 @@ func (m *Machine) applyBelow() {
 type pushRecTag struct {
 	F string
 	A absStack
+}
+
+// prepareNilTested collects the untracked nilable receiver fields that the
+// dispatch function, or a receiver method it calls, compares with nil.
+func (m *Machine) prepareNilTested() {
+	in := m.in
+	in.nilTested = map[string]bool{}
+	seen := map[*ast.FuncDecl]bool{}
+	var visit func(fd *ast.FuncDecl)
+	visit = func(fd *ast.FuncDecl) {
+		if fd == nil || fd.Body == nil || seen[fd] {
+			return
+		}
+		seen[fd] = true
+		var recv types.Object
+		if fd.Recv != nil && len(fd.Recv.List) == 1 && len(fd.Recv.List[0].Names) == 1 {
+			recv = in.info.Defs[fd.Recv.List[0].Names[0]]
+		}
+		ast.Inspect(fd.Body, func(n ast.Node) bool {
+			switch x := n.(type) {
+			case *ast.CallExpr:
+				if sel, ok := x.Fun.(*ast.SelectorExpr); ok {
+					if s := in.info.Selections[sel]; s != nil {
+						if f, ok := s.Obj().(*types.Func); ok {
+							visit(in.methods[f])
+						}
+					}
+				}
+			case *ast.BinaryExpr:
+				if x.Op != token.EQL && x.Op != token.NEQ {
+					return true
+				}
+				for _, pair := range [][2]ast.Expr{{x.X, x.Y}, {x.Y, x.X}} {
+					tv, ok := in.info.Types[pair[1]]
+					if !ok || !tv.IsNil() {
+						continue
+					}
+					sel, ok := ast.Unparen(pair[0]).(*ast.SelectorExpr)
+					if !ok {
+						continue
+					}
+					id, ok := sel.X.(*ast.Ident)
+					if !ok || recv == nil || in.info.Uses[id] != recv {
+						continue
+					}
+					f := sel.Sel.Name
+					if in.tracked[f] || in.stackFld[f] || f == in.buildFld || !isNilable(in.info.TypeOf(sel)) {
+						continue
+					}
+					in.nilTested[f] = true
+				}
+			}
+			return true
+		})
+	}
+	visit(m.work)
+	// only fields that deliver output (called with, or sent, a value) matter: the answer decides
+	// which hand-off events a path produces
+	out := map[string]bool{}
+	for fd := range seen {
+		var recv types.Object
+		if fd.Recv != nil && len(fd.Recv.List) == 1 && len(fd.Recv.List[0].Names) == 1 {
+			recv = in.info.Defs[fd.Recv.List[0].Names[0]]
+		}
+		isRecvField := func(e ast.Expr) (string, bool) {
+			sel, ok := ast.Unparen(e).(*ast.SelectorExpr)
+			if !ok {
+				return "", false
+			}
+			id, ok := sel.X.(*ast.Ident)
+			if !ok || recv == nil || in.info.Uses[id] != recv {
+				return "", false
+			}
+			return sel.Sel.Name, true
+		}
+		ast.Inspect(fd.Body, func(n ast.Node) bool {
+			switch x := n.(type) {
+			case *ast.CallExpr:
+				if f, ok := isRecvField(x.Fun); ok {
+					out[f] = true
+				}
+			case *ast.SendStmt:
+				if f, ok := isRecvField(x.Chan); ok {
+					out[f] = true
+				}
+			}
+			return true
+		})
+	}
+	for f := range in.nilTested {
+		if !out[f] {
+			delete(in.nilTested, f)
+		}
+	}
 }
